@@ -122,7 +122,7 @@ func check(c Case) (kind, what string, nt bool) {
 }
 
 func genPar(rt *rapid.T, rows int) int {
-	return rapid.SampledFrom([]int{1, 2, 3, 7, 16, rows + 5}).Draw(rt, "parallelism")
+	return rapid.SampledFrom(parChoices(rows)).Draw(rt, "parallelism")
 }
 
 func TestC15(t *testing.T) {
@@ -288,4 +288,15 @@ func thoroughExtremes() {
 			}
 		}
 	}
+}
+
+// parChoices: the stated set {1,2,3,7,16,rows+5} plus parallelism equal to (and adjacent to) the number of rows
+func parChoices(rows int) []int {
+	c := []int{1, 2, 3, 7, 16, rows + 5}
+	for _, p := range []int{rows - 1, rows, rows + 1, 4, 8} {
+		if p >= 1 {
+			c = append(c, p)
+		}
+	}
+	return c
 }
